@@ -265,7 +265,7 @@ class C12(Check):
                   'number+name concatenations, equal numbers on adjacent residues, wrapping numbers, with/without '
                   'velocities) up to 3 (quick) / 5 (thorough) residues, and three 400-residue layouts, is loaded by the '
                   'real code; every access history over a 19-event alphabet (index, negative index, slices, two live '
-                  'iterators, len, list, out-of-range) up to depth 3 / 5 modulo the cursor key, and every ordered pair '
+                  'iterators, len, list, out-of-range) up to depth 4 (quick) / 5 (thorough; 4 on 5-residue files) modulo the cursor key, and every ordered pair '
                   'of events inside a long history, is executed and each result compared with the k-th reference '
                   'residue; a coverage statement over that finite space')
     level_note = ('trusted: the minimal reference reader in this module (cross-checked against the generator\'s own record '
@@ -281,10 +281,11 @@ class C12(Check):
     def units(self, tier, seed):
         thorough = tier == 'thorough'
         lmax = 5 if thorough else 3
-        depth = 5 if thorough else 3
+        depth = 5 if thorough else 4
         mod = 16 if thorough else 6
         self.bounds = {'file_residues_max': lmax, 'kinds': list(KORDER), 'numberings': list(NUMBERINGS),
-                       'velocities': [False, True], 'bfs_depth': depth, 'events': 19, 'live_iterators_max': 2,
+                       'velocities': [False, True], 'bfs_depth': depth,
+                       'bfs_depth_for_files_of_5_residues': 4, 'events': 19, 'live_iterators_max': 2,
                        'big_files': ['p2 (W1,AB)x200', 'p3 (W3,ION,W1)x133+1 width 10', 'block 300xW3 + 100 singles'],
                        'big_file_history': 'de Bruijn order 2 over 19 events (362 events) + BFS depth 2',
                        'de_bruijn_on_small_files': True}
@@ -311,7 +312,7 @@ class C12(Check):
                 i += 1
                 if i % unit['mod'] == unit['r']:
                     yield {'file': {'kinds': list(kinds), 'num': unit['num'], 'vel': unit['vel']},
-                           'depth': unit['depth'], 'db': True}
+                           'depth': min(unit['depth'], 4) if ln >= 5 else unit['depth'], 'db': True}
 
     # ------------------------------------------------------------------
     def check_case(self, case, R, seed):
